@@ -257,7 +257,15 @@ impl<'e> Visitor<'e, 'e> for DepGraph<'e> {
                 None
             }
 
-            Expr::Call(Expr::Ident(id, ..), ..) if !id.name.as_str().starts_with('#') => {
+            // Any call may fail or have a side effect, whatever expression computes the callee
+            // (`r.f 1`, `(\x -> ..) 1`, `(if c then f else g) 1`): the enclosing bindings must be
+            // kept. Only the built-in `#Int+` style primitives are known not to have effects.
+            Expr::Call(f, ..)
+                if match f {
+                    Expr::Ident(id, ..) => !id.name.as_str().starts_with('#'),
+                    _ => true,
+                } =>
+            {
                 for window in self
                     .currents
                     .windows(2)
